@@ -79,6 +79,10 @@ def results(F, singletons=False):
     nonprog = {}
     # per function and abstract argument tuple: the callees some context with those arguments calls
     ctx_calls = {}
+    fn_callers = {}
+    for c in E.contexts:
+        for cc, _bo in E.table[c].facts.edges:
+            fn_callers.setdefault(cc[0], set()).add(c[0])
     for c in E.contexts:
         summ = E.table[c]
         for (prog, _r, S_out, _s) in summ.outs:
@@ -87,8 +91,16 @@ def results(F, singletons=False):
         if c[0].startswith(PE.PARSER):
             continue
         d = ctx_calls.setdefault(c[0], {}).setdefault(repr(c[2]), set())
-        for cc, _bo in summ.facts.edges:
-            d.add(cc[0])
+        # direct callees, and the callees of helpers that belong to this function (every call of the helper is made by it)
+        seen_h, st_h = set(), [c]
+        while st_h:
+            cur = st_h.pop()
+            for cc, _bo in E.table[cur].facts.edges:
+                d.add(cc[0])
+                if cc in E.table and cc not in seen_h and cc[0] != c[0] and not cc[0].startswith(PE.PARSER) and \
+                        fn_callers.get(cc[0], set()) <= {c[0]} | {x[0] for x in seen_h}:
+                    seen_h.add(cc)
+                    st_h.append(cc)
     res = {
         "nonprogress_kinds": nonprog, "ctx_calls": ctx_calls,
         "universe": E.universe, "trivia": E.trivia, "lex_kinds": E.lex_kinds,
